@@ -2,22 +2,41 @@
 Line-protocol driver for the C02 models.  Parsing glue only.
 
   shape := <class> <arr> <n-extra> (<name> <xv>)* <n-groups> (<name> <shape>)*
-  arr   := r c num*                      xv := i <int> | a <arr> | d <n> (<name> <arr>)*
+  arr   := r c num*                      xv := i <int> | a <arr> | d <n> (<name> <arr>)* | t <n> tok*
+  tok   := I <int> | A <arr> | D | F | O <class> | K <name> | C     (deep digest of an object-valued attribute)
   F     := tab <n> (<arr> <arr>)*        the transform as the table  input array ↦ `transform.apply(array)`
          | hom <arr>                     homogeneous matrix (d+1)×(d+1): x ↦ (H·[x;1])[:d] / (H·[x;1])[d]
+         | aff <arr>                     the same matrix through `Affine._apply`: x ↦ L·x + t
 
-ops:  apply <fuel> F <shape>   → ok rep=<0|1> changed=<n> intact=<0|1> fresh=<0|1> agree=<0|1> <shape>
+         | dims <n> <j>*                 `WithDims(dims)`: x ↦ x[:, dims]
+         | chain <n> F*                  `TransformChain`: the members one after the other
+  batch := 0 (None) | k
+
+ops:  apply <fuel> F <shape>   → ok rep=<0|1> repd=<0|1> tot=<0|1> changed=<n> intact=<0|1> fresh=<0|1> agree=<0|1> <shape>
+      applyb <fuel> <batch> F <shape>   the same through `_apply_batched` (model: `applyBatched`)
+      applym <fuel> <batch> F <shape>   `transform.apply(shape.landmarks)` → ok changed= intact= fresh= agree= <groups>
           rep     the built heap satisfies the hypothesis of the heap theorems (`repB`)
+          repd    … and of the deep heap theorems (`repDB`: every attribute by deep digest)
+          tot     … and of `apply_succeeds` (the whole object graph has a digest of known classes within the fuel)
           changed number of cells below the old heap top that differ after the call (`apply_no_write`: 0)
           intact  the input address still reads back as the input shape
           fresh   the returned address is above the old heap top
           agree   heap-level result read back = value-level result (`apply_refines`)
           <shape> the value-level result `applyV expectedDispatch f s`
-      array F <arr>            → ok <arr>         (`Transform.apply` on a bare array)
+      run <fuel> <heap> <n> (<addr> <shape>)* <n> (<batch> F <src>)*   a heap given cell by cell (sharing included),
+          the objects under test, a sequence of calls on them or on earlier results (`runH` / `runV`, `run_refines`)
+          heap := <n> cell*   cell := A <arr> | D <slots> | F <slots> | O <class> <slots>   slots := <n> (<name> (i <int> | r <addr>))*
+          → ok rep= changed= repafter= fresh= <n> <shape>*
+      array F <arr> | arrayb <batch> F <arr>   → ok <arr>         (`Transform.apply` on a bare array)
 -/
 import MenpoModel.Core.Codec
 import MenpoModel.Core.C02
+import MenpoModel.Core.C02Deep
+import MenpoModel.Core.C02Batch
 import MenpoModel.Lemmas.C02Check
+import MenpoModel.Lemmas.C02CheckD
+import MenpoModel.Props.C02Seq
+import MenpoModel.Props.C02Total
 
 namespace MenpoModel.Drive.C02
 open MenpoModel.Codec MenpoModel.C02
@@ -41,6 +60,40 @@ def fCls : SCls → String
   | .PointDirectedGraph => "PointDirectedGraph" | .PointTree => "PointTree"
   | .LabelledPointUndirectedGraph => "LabelledPointUndirectedGraph"
 
+def pAnyCls : P Cls := do
+  let t ← tok
+  match t with
+  | "PointCloud" => pure (.shape .PointCloud)
+  | "TriMesh" => pure (.shape .TriMesh)
+  | "ColouredTriMesh" => pure (.shape .ColouredTriMesh)
+  | "TexturedTriMesh" => pure (.shape .TexturedTriMesh)
+  | "PointUndirectedGraph" => pure (.shape .PointUndirectedGraph)
+  | "PointDirectedGraph" => pure (.shape .PointDirectedGraph)
+  | "PointTree" => pure (.shape .PointTree)
+  | "LabelledPointUndirectedGraph" => pure (.shape .LabelledPointUndirectedGraph)
+  | "LandmarkManager" => pure .LandmarkManager
+  | "Image" => pure .Image
+  | _ => pure .other
+
+def fAnyCls : Cls → String
+  | .shape c => fCls c
+  | .LandmarkManager => "LandmarkManager"
+  | .Image => "Image"
+  | .other => "other"
+
+/-- tok := I <int> | A <arr> | D | F | O <class> | K <name> | C -/
+def pTok : P Tok := do
+  let t ← tok
+  match t with
+  | "I" => do let n ← pInt; pure (.imm n)
+  | "A" => do let m ← pMat; pure (.arr m)
+  | "D" => pure .dictO
+  | "F" => pure .frozenO
+  | "O" => do let c ← pAnyCls; pure (.objO c)
+  | "K" => do let n ← tok; pure (.key n)
+  | "C" => pure .close
+  | _ => failure
+
 def pXV : P XV := do
   let t ← tok
   match t with
@@ -49,6 +102,7 @@ def pXV : P XV := do
   | "d" => do
     let items ← pList (do let n ← tok; let m ← pMat; pure (n, m))
     pure (.dict items)
+  | "t" => do let ts ← pList pTok; pure (.deep ts)
   | _ => failure
 
 def groupsOfList : List (String × Shape) → Groups
@@ -66,10 +120,20 @@ def fArr (m : Arr) : String :=
   let c := match m with | [] => 0 | r :: _ => r.length
   s!"{m.length} {c}" ++ (if m.flatten.isEmpty then "" else " " ++ fmtRats m.flatten)
 
+def fTok : Tok → String
+  | .imm t => s!"I {t}"
+  | .arr m => "A " ++ fArr m
+  | .dictO => "D"
+  | .frozenO => "F"
+  | .objO c => "O " ++ fAnyCls c
+  | .key s => "K " ++ s
+  | .close => "C"
+
 def fXV : XV → String
   | .imm t => s!"i {t}"
   | .arr m => "a " ++ fArr m
   | .dict items => s!"d {items.length}" ++ String.join (items.map fun p => " " ++ p.1 ++ " " ++ fArr p.2)
+  | .deep ts => s!"t {ts.length}" ++ String.join (ts.map fun t => " " ++ fTok t)
 
 mutual
 def fShape : Shape → String
@@ -84,56 +148,158 @@ def gCount : Groups → Nat
   | .cons _ _ r => gCount r + 1
 end
 
-def dotRow (r x : List Rat) : Rat := (List.zipWith (· * ·) r x).foldl (· + ·) 0
-
-/-- `Homogeneous._apply`: `h_y = [x, 1]·Hᵀ; return (h_y / h_y[:, -1])[:, :-1]` (division by 0 left as 0) -/
-def homApply (H : Arr) (a : Arr) : Arr :=
-  a.map fun x =>
-    let hx := x ++ [1]
-    let hy := H.map fun r => dotRow r hx
-    let w := hy.getLastD 1
-    (hy.dropLast).map fun y => y / w
-
-def pF : P (Arr → Arr) := do
+partial def pF : P (Arr → Arr) := do
   let t ← tok
   match t with
   | "tab" => do
     let tbl ← pList (do let a ← pMat; let b ← pMat; pure (a, b))
     pure fun a => (tbl.lookup a).getD a
   | "hom" => do let H ← pMat; pure (homApply H)
+  | "aff" => do let H ← pMat; pure (affineApply H)
+  | "dims" => do let ds ← pList pNat; pure (withDims ds)
+  | "chain" => do let fs ← pList pF; pure (chainFn fs)
   | _ => failure
 
+/-- `0` is `batch_size=None` -/
+def pBatch : P (Option Nat) := do
+  let k ← pNat
+  pure (if k == 0 then none else some k)
+
 def b01 (b : Bool) : String := if b then "1" else "0"
+
+def runApply (k : Nat) (f : Arr → Arr) (s : Shape) : String :=
+  let (h, v) := build [] s
+  let rep := repB h s v
+  let repd := repDB h s v
+  -- the hypotheses of `apply_succeeds` (J = k): the whole object graph has a digest of classes the table lists
+  let tot := (digest k h v).map knownToksB == some true && decide (s.depth ≤ k)
+  match applyV expectedDispatch f s, applyH expectedDispatch f k h v with
+  | .ok sv, .ok (h', v') =>
+    let changed := (changedBelow h.length h h').length
+    let intact := (match readShape k h' v with
+      | some s0 => fShape s0 == fShape s
+      | none => false) && repDB h' s v
+    let fresh := match v' with
+      | .ref a => decide (h.length ≤ a)
+      | _ => false
+    let agree := (match readShape k h' v' with
+      | some sh => fShape sh == fShape sv
+      | none => false) && repDB h' sv v'
+    s!"ok rep={b01 rep} repd={b01 repd} tot={b01 tot} changed={changed} intact={b01 intact} fresh={b01 fresh} agree={b01 agree} " ++ fShape sv
+  | .error e, _ => "err value " ++ reprStr e
+  | _, .error e => s!"err heap tot={b01 tot} " ++ reprStr e
+
+/-- `transform.apply(shape.landmarks)`: the manager of the built shape is the argument -/
+def runManager (k : Nat) (f : Arr → Arr) (s : Shape) : String :=
+  let (h, v) := build [] s
+  let mv : Option Val := match v with
+    | .ref a => match h[a]? with
+      | some (.obj _ fs) => fs.lookup "_landmarks"
+      | _ => none
+    | _ => none
+  match mv with
+  | some (.ref l) =>
+    match applyH expectedDispatch f k h (.ref l) with
+    | .ok (h', v') =>
+      let changed := (changedBelow h.length h h').length
+      let fresh := match v' with
+        | .ref a => decide (h.length ≤ a)
+        | _ => false
+      let want := mapGroups f s.lms
+      -- read the groups of the returned manager back through a scratch host object
+      let host : Heap := h' ++ [.arr [], .obj (.shape .PointCloud) [("_landmarks", v'), ("points", .ref h'.length)]]
+      let got := (readShape (k + 1) host (.ref (h'.length + 1))).map Shape.lms
+      let agree := match got with
+        | some g => toString (gCount g) ++ fGroups g == toString (gCount want) ++ fGroups want
+        | none => false
+      let intact := match readShape k h' v with
+        | some s0 => fShape s0 == fShape s
+        | none => false
+      s!"ok changed={changed} intact={b01 intact} fresh={b01 fresh} agree={b01 agree} " ++ toString (gCount want) ++ fGroups want
+    | .error e => "err heap " ++ reprStr e
+  | _ => "err no-manager"
+
+/-! ### heaps given cell by cell (the image of a real object graph, sharing included) and call sequences -/
+
+def pVal : P Val := do
+  let t ← tok
+  match t with
+  | "i" => do let n ← pInt; pure (.imm n)
+  | "r" => do let a ← pNat; pure (.ref a)
+  | _ => failure
+
+def pSlots : P Slots := pList (do let n ← tok; let v ← pVal; pure (n, v))
+
+/-- cell := A <arr> | D <slots> | F <slots> | O <class> <slots> -/
+def pCell : P Cell := do
+  let t ← tok
+  match t with
+  | "A" => do let m ← pMat; pure (.arr m)
+  | "D" => do let fs ← pSlots; pure (.dict fs)
+  | "F" => do let fs ← pSlots; pure (.frozen fs)
+  | "O" => do let c ← pAnyCls; let fs ← pSlots; pure (.obj c fs)
+  | _ => failure
+
+def pCall (k : Nat) : P Call := do
+  let b ← pBatch
+  let f ← pF
+  let src ← pNat
+  pure ⟨applyBatched f b, k, src⟩
+
+/-- `run <fuel> <heap> <env: (addr shape)*> <calls: (batch F src)*>` -/
+def runSeq (_k : Nat) (h : Heap) (env : List (Nat × Shape)) (calls : List Call) : String :=
+  let vs : List Val := env.map fun e => .ref e.1
+  let ss : List Shape := env.map Prod.snd
+  let rep := allRepB h ss vs
+  match runV expectedDispatch calls ss, runH expectedDispatch calls h vs with
+  | .ok ss', .ok (h', vs') =>
+    let changed := (changedBelow h.length h h').length
+    let repafter := allRepB h' ss' vs'
+    let fresh := (vs'.drop vs.length).all fun v => match v with
+      | .ref a => decide (h.length ≤ a)
+      | _ => false
+    let res := ss'.drop ss.length
+    s!"ok rep={b01 rep} changed={changed} repafter={b01 repafter} fresh={b01 fresh} {res.length}" ++
+      String.join (res.map fun s => " " ++ fShape s)
+  | .error e, _ => "err value " ++ reprStr e
+  | _, .error e => "err heap " ++ reprStr e
 
 def step (toks : List String) : String :=
   match toks with
   | "apply" :: rest =>
     match runP (do let k ← pNat; let f ← pF; let s ← pShape; pure (k, f, s)) rest with
     | none => "bad-op"
-    | some (k, f, s) =>
-      let (h, v) := build [] s
-      let rep := repB h s v
-      match applyV expectedDispatch f s, applyH expectedDispatch f k h v with
-      | .ok sv, .ok (h', v') =>
-        let changed := (changedBelow h.length h h').length
-        let intact := match readShape k h' v with
-          | some s0 => fShape s0 == fShape s
-          | none => false
-        let fresh := match v' with
-          | .ref a => decide (h.length ≤ a)
-          | _ => false
-        let agree := match readShape k h' v' with
-          | some sh => fShape sh == fShape sv
-          | none => false
-        s!"ok rep={b01 rep} changed={changed} intact={b01 intact} fresh={b01 fresh} agree={b01 agree} " ++ fShape sv
-      | .error e, _ => "err value " ++ reprStr e
-      | _, .error e => "err heap " ++ reprStr e
+    | some (k, f, s) => runApply k f s
+  | "applyb" :: rest =>
+    match runP (do let k ← pNat; let b ← pBatch; let f ← pF; let s ← pShape; pure (k, b, f, s)) rest with
+    | none => "bad-op"
+    | some (k, b, f, s) => runApply k (applyBatched f b) s
+  | "applym" :: rest =>
+    match runP (do let k ← pNat; let b ← pBatch; let f ← pF; let s ← pShape; pure (k, b, f, s)) rest with
+    | none => "bad-op"
+    | some (k, b, f, s) => runManager k (applyBatched f b) s
+  | "run" :: rest =>
+    match runP (do
+        let k ← pNat
+        let h ← pList pCell
+        let env ← pList (do let a ← pNat; let s ← pShape; pure (a, s))
+        let calls ← pList (pCall k)
+        pure (k, h, env, calls)) rest with
+    | none => "bad-op"
+    | some (k, h, env, calls) => runSeq k h env calls
   | "array" :: rest =>
     match runP (do let f ← pF; let a ← pMat; pure (f, a)) rest with
     | none => "bad-op"
     | some (f, a) =>
       match applyAny expectedDispatch f (.array a) with
       | .ok (.array b) => "ok " ++ fArr b
+      | _ => "err"
+  | "arrayb" :: rest =>
+    match runP (do let b ← pBatch; let f ← pF; let a ← pMat; pure (b, f, a)) rest with
+    | none => "bad-op"
+    | some (b, f, a) =>
+      match applyT expectedDispatch f b (.array a) with
+      | .ok (.array r) => "ok " ++ fArr r
       | _ => "err"
   | _ => "bad-op"
 
